@@ -399,8 +399,9 @@ def run_kill_stop(ctx, name, role, steps, only=None):
         for state, res in sim.stop_results:
             if bool(res) != (state == 1):
                 ctx.fail('C13:stop-result', '%s: stop() returned %r in Sta%s' % (name, res, state), case)
-            if res and not sim.final()['loop_exited_flag']:
-                ctx.fail('C13:stop-exit', '%s: stop() returned True but the loop did not exit' % name, case)
+            if res and (not sim.final()['loop_exited_flag'] or (sim.stopped_at is not None and sim.next != sim.stopped_at)):
+                ctx.fail('C13:stop-exit', '%s: stop() returned True but the loop did not exit (it went on to take %d more '
+                         'scripted steps)' % (name, sim.next - (sim.stopped_at or sim.next)), case)
 
 
 def run_conv(ctx, job):
